@@ -825,6 +825,8 @@ type filteredInput struct {
 	CapR   int           `json:"capR"`
 	SubDir bool          `json:"subDir,omitempty"`
 	Origin string        `json:"origin"`
+	// Unreadable: (empty) source directories the sender may not list (mode 0000, no CAP_DAC_*) while the transfer runs
+	Unreadable []string `json:"unreadable,omitempty"`
 }
 
 func runFiltered(c *Ctx, caseNo int, in filteredInput) ([]vt.Ev, *SyncResult, error) {
@@ -983,7 +985,7 @@ func runFiltered(c *Ctx, caseNo int, in filteredInput) ([]vt.Ev, *SyncResult, er
 		b, err := io.ReadAll(rc)
 		return b, err == nil
 	}
-	res, err := RunSync(caseNo, src, dst, SyncOpts{Mode: "dirty", Differ: "metadata", CapS2R: in.CapS, CapR2S: in.CapR, SrcFS: f,
+	res, err := RunSync(caseNo, src, dst, SyncOpts{Mode: "dirty", Differ: "metadata", CapS2R: in.CapS, CapR2S: in.CapR, SrcFS: f, Unreadable: in.Unreadable,
 		Content: func(p string) ([]byte, bool) {
 			p = strings.TrimPrefix(p, pfx)
 			if e := snap.Find(p); e == nil || e.Type != "file" {
@@ -1052,6 +1054,49 @@ func syncFiltered(c *Ctx) error {
 			ft.Sort()
 			for _, inc := range [][]string{{"dir", "!dir/akey"}, {"!dir/akey", "dir"}} {
 				in := filteredInput{Src: ft, CapS: 4, CapR: 4, Origin: "filtered/orderedIncludesWithFollow", Stack: [][3][]string{{inc, nil, {"l"}}}}
+				evs, _, err := runFiltered(c, c.NextCase(), in)
+				if err != nil {
+					return err
+				}
+				for _, e := range evs {
+					c.Out.Emit(e)
+				}
+				c.Stats.Case(vt.Opaque(in), true)
+			}
+		}
+		// a directory the sender may not list that the filter excludes (with an exception or a wildcard in the list, so that it
+		// cannot be pruned up front): the filtered view still transfers
+		{
+			dr := func(p string) model.Entry { return model.Entry{Path: p, Type: "dir", Perm: 0755, Mtime: uniqueMtime()} }
+			ut := model.Tree{dr("bar"), dr("foo"), dr("foo/bar"), mk("foo/x"), mk("z")}
+			ut.Sort()
+			for k := range ut {
+				ut[k].Uid, ut[k].Gid = 0, 0
+			}
+			for _, exc := range [][]string{{"**/bar", "!foo/bar/baz"}, {"foo/bar", "bar", "!foo/bar/baz"}, {"**/bar"}} {
+				in := filteredInput{Src: ut, CapS: 4, CapR: 4, Origin: "filtered/excludedUnreadableDirectory", Stack: [][3][]string{{nil, exc, nil}}, Unreadable: []string{"bar", "foo/bar"}}
+				evs, _, err := runFiltered(c, c.NextCase(), in)
+				if err == errUnprivUnsupported {
+					continue
+				}
+				if err != nil {
+					return err
+				}
+				for _, e := range evs {
+					c.Out.Emit(e)
+				}
+				c.Stats.Case(vt.Opaque(in), true)
+			}
+		}
+		// entry names that contain pattern metacharacters, named by patterns that escape them: no real wildcard in the list,
+		// so the walk's prefix shortcuts apply, and they must compare what the pattern MEANS, not its text
+		{
+			dr := func(p string) model.Entry { return model.Entry{Path: p, Type: "dir", Perm: 0755, Mtime: uniqueMtime()} }
+			mt := model.Tree{dr("a*b"), mk("a*b/c"), mk("a*b/d"), dr("axb"), mk("axb/c"), dr("q?"), mk("q?/c"), dr("q?/s[1]"), mk("q?/s[1]/f"), mk("z")}
+			mt.Sort()
+			for _, st := range [][3][]string{{{`a\*b/c`}, nil, nil}, {{`a\*b`}, nil, nil}, {{`q\?/c`, "z"}, nil, nil}, {{`q\?/s\[1]/f`}, nil, nil},
+				{nil, {`a\*b/c`}, nil}, {{`a\*b/c`, "axb"}, nil, nil}, {{`a\*b`, `!a\*b/d`}, nil, nil}} {
+				in := filteredInput{Src: mt, CapS: 4, CapR: 4, Origin: "filtered/escapedMetacharacters", Stack: [][3][]string{st}}
 				evs, _, err := runFiltered(c, c.NextCase(), in)
 				if err != nil {
 					return err
@@ -1407,6 +1452,15 @@ func syncMeta(c *Ctx) error {
 					metaInput{Src: src, Selected: sel, Dst: staleFile, Merge: merge, Origin: "boundary/staleListing"},
 					metaInput{Src: src, Selected: sel, Dst: linkOut, Merge: merge, OutsideListing: "live", Origin: "boundary/listingIsLinkToOutsideFile"},
 					metaInput{Src: src, Selected: sel, Dst: linkOut, Merge: merge, OutsideListing: "dangling", Origin: "boundary/listingIsDanglingLinkToOutside"})
+				// a directory with the listing's name left by an earlier plain transfer: empty, and (without merge mode, where
+				// stale entries are removed as in a normal transfer) with children
+				emptyDir := model.Tree{{Path: listingName, Type: "dir", Perm: 0755, Mtime: uniqueMtime()}}
+				shapes = append(shapes, metaInput{Src: src, Selected: sel, Dst: emptyDir, Merge: merge, Origin: "boundary/listingNameIsEmptyDir"})
+				if !merge {
+					fullDir := model.Tree{{Path: listingName, Type: "dir", Perm: 0755, Mtime: uniqueMtime()}, mkf(listingName + "/child"),
+						{Path: listingName + "/sub", Type: "dir", Perm: 0700, Mtime: uniqueMtime()}, mkf(listingName + "/sub/deep")}
+					shapes = append(shapes, metaInput{Src: src, Selected: sel, Dst: fullDir, Merge: merge, Origin: "boundary/listingNameIsNonEmptyDir"})
+				}
 			}
 		}
 		for _, in := range shapes {
